@@ -13,7 +13,8 @@
 //                {tuples:[[i,j,..],..]} (explicit pool indexes)
 //      checks  : [[selector, refExpr, seq], ..]   selector "r:v" = values handed to wrapper.r(elem,"v",value) of every
 //                element in document order ("d:k" dataset, "m:k" mark, "c" class, "y" style, "i" id, "l:k" slot value),
-//                "t" = text contents of all text nodes in document order, "sn" = names of all <slot> nodes.  refExpr is a JavaScript expression over
+//                "t" = text contents of all text nodes in document order, "sn" = names of all <slot> nodes, "fk" = the key handed to every F (wx:key), "gen" = the generics object of every
+//                element that has one, "slot" = the static slot name of every element that has one.  refExpr is a JavaScript expression over
 //                $d (the data object), $get (null-safe read), $call (plain-function call, undefined for a non-function),
 //                $str (null/undefined -> '', else String(v)), $each(list, (item,index)=>..) (what a wx:for visits).  seq=false: exactly one observation, equal to refExpr;
 //                seq=true: refExpr is the array of all observations.
@@ -232,7 +233,11 @@ function update(nodes, children, V) {
 function observe(nodes, sel, out) {
   for (const n of nodes) {
     if (n.t === 'text') { if (sel === 't') out.push(n.text) } else {
-      if (sel === 'sn') { if (n.t === 'slot') out.push(n.name) } else if (sel !== 't' && Object.prototype.hasOwnProperty.call(n.attrs, sel)) out.push(n.attrs[sel])
+      if (sel === 'sn') { if (n.t === 'slot') out.push(n.name) }
+      else if (sel === 'fk') { if (n.t === 'for') out.push(n.key) } // the wx:key handed to F
+      else if (sel === 'gen') { if (n.t === 'el' && n.generics && Object.keys(n.generics).length) out.push(n.generics) } // generic:x="impl"
+      else if (sel === 'slot') { if ((n.t === 'el' || n.t === 'slot' || n.t === 'virtual') && n.slot !== undefined) out.push(n.slot) } // static slot="name"
+      else if (sel !== 't' && Object.prototype.hasOwnProperty.call(n.attrs, sel)) out.push(n.attrs[sel])
       observe(n.children, sel, out)
     }
   }
